@@ -67,6 +67,30 @@ def run_one(meta, repo, tier="quick"):
         shutil.rmtree(work, ignore_errors=True)
 
 
+def cross_negatives(repo=None, jobs=8):
+    """every behaviour-preserving mutant must be silent under EVERY claimed property, not only the one it was written for"""
+    repo = repo or X.REPO
+    metas = [parse(p) for p in sorted(glob.glob(os.path.join(VERIF, "mutants", "*.patch")))]
+    metas = [m for m in metas if m.get("kind") == "negative"]
+    props = [c["property_id"] for c in json.load(open(os.path.join(VERIF, "MANIFEST.json")))["checks"]]
+    jobs_l = []
+    for m in metas:
+        for p in props:
+            mm = dict(m)
+            mm["property"] = p
+            mm["name"] = "%s@%s" % (m["name"], p)
+            jobs_l.append(mm)
+    bad = []
+    with concurrent.futures.ThreadPoolExecutor(max_workers=jobs) as ex:
+        for r in ex.map(lambda m: run_one(m, repo), jobs_l):
+            if r["status"] != "ok":
+                bad.append(r)
+                print("%-12s %s fired=%s exit=%s" % (r["status"], r["name"], r.get("rules_fired"), r.get("exit")))
+                sys.stdout.flush()
+    print("cross-negatives: %d runs (%d behaviour-preserving mutants x %d properties), %d not silent" % (len(jobs_l), len(metas), len(props), len(bad)))
+    return bad
+
+
 def selftest(repo=None, only=None, props=None, jobs=8, tier="quick"):
     repo = repo or X.REPO
     metas = [parse(p) for p in sorted(glob.glob(os.path.join(VERIF, "mutants", "*.patch")))]
